@@ -48,6 +48,26 @@ from solvor.types import Result
 __all__ = ["articulation_points", "bridges"]
 
 
+def _undirected_adjacency[S](
+    node_list: list[S],
+    neighbors: Callable[[S], Iterable[S]],
+) -> dict[S, dict[S, None]]:
+    """Symmetric adjacency restricted to node_list (same convention as kcore).
+
+    An edge listed by only one of its endpoints is still an undirected edge, so it
+    is recorded for both. Self loops and duplicate neighbors are dropped. Dicts are
+    used as insertion-ordered sets to keep the traversal order deterministic.
+    """
+    node_set = set(node_list)
+    adj: dict[S, dict[S, None]] = {v: {} for v in node_list}
+    for v in node_list:
+        for w in neighbors(v):
+            if w in node_set and w != v:
+                adj[v][w] = None
+                adj[w][v] = None
+    return adj
+
+
 def articulation_points[S](
     nodes: Iterable[S],
     neighbors: Callable[[S], Iterable[S]],
@@ -62,7 +82,7 @@ def articulation_points[S](
     if n <= 1:
         return Result(set(), 0, 0, n)
 
-    node_set = set(node_list)
+    adj = _undirected_adjacency(node_list, neighbors)
     discovery: dict[S, int] = {}
     low: dict[S, int] = {}
     parent: dict[S, S | None] = {}
@@ -79,10 +99,7 @@ def articulation_points[S](
         low[v] = time[0]
         time[0] += 1
 
-        for w in neighbors(v):
-            if w not in node_set:
-                continue
-
+        for w in adj[v]:
             if w not in discovery:
                 children += 1
                 parent[w] = v
@@ -125,7 +142,7 @@ def bridges[S](
     if n <= 1:
         return Result([], 0, 0, n)
 
-    node_set = set(node_list)
+    adj = _undirected_adjacency(node_list, neighbors)
     discovery: dict[S, int] = {}
     low: dict[S, int] = {}
     parent: dict[S, S | None] = {}
@@ -141,10 +158,7 @@ def bridges[S](
         low[v] = time[0]
         time[0] += 1
 
-        for w in neighbors(v):
-            if w not in node_set:
-                continue
-
+        for w in adj[v]:
             if w not in discovery:
                 parent[w] = v
                 dfs(w)
